@@ -156,6 +156,17 @@ func (g *c09gen) baseOp() ops.Op {
 	if fk, ok := focusKinds[g.focus]; ok && r.Chance(0.65) {
 		k = fk[r.Intn(len(fk))]
 	}
+	if g.wide && r.Chance(0.7) {
+		// wide histories are dense sequences of calls that each build exactly one year table
+		switch g.focus {
+		case "lyear":
+			k = "lyear"
+		case "lmonth":
+			k = "lmonth"
+		default:
+			k = r.PickS([]string{"lunar", "lunar", "ltime", "lyear"})
+		}
+	}
 	switch k {
 	case "solar2lunar", "solar":
 		return ops.Op{K: k, A: g.solarArgs()}
